@@ -48,6 +48,7 @@ def v2spec(test, **kw):
 
 
 SPECS = {}
+NOT_CLAIMED = {}
 
 SPECS["C01"] = v2spec(
     "TestVerifC01",
@@ -59,4 +60,45 @@ SPECS["C01"] = v2spec(
     floor_evals={"quick": 700, "thorough": 30000},
     floor_nontrivial={"quick": 600, "thorough": 25000},
     timeout={"quick": 1500, "thorough": 3 * 3600},
+)
+
+SPECS["C02"] = v2spec(
+    "TestVerifC02",
+    title="confidence never overstates the similarity of the reported span",
+    rule=("case = one generated input (edited / truncated / concatenated / adversarial-for-the-diff corpus texts, scenario files, synthetic corpora "
+          "with hyphen-split layouts); every non-Copyright match returned is judged: banded word-level Levenshtein between the span's words "
+          "(white-box token view of the input, unknown words pairwise distinct) and the named document's words must be <= (1-Confidence)*|K|, and "
+          "StartLine/EndLine must be the lines of the span's first/last word (tokenizer view; for synthetic layouts also the physical line known by construction). "
+          "Non-trivial = at least one license match was judged; distinct = distinct input bytes x threshold."),
+    floor_evals={"quick": 800, "thorough": 15000},
+    floor_nontrivial={"quick": 500, "thorough": 10000},
+    timeout={"quick": 1500, "thorough": 3 * 3600},
+)
+
+SPECS["C03"] = v2spec(
+    "TestVerifC03",
+    title="nothing below threshold; results well formed and ordered",
+    rule=("case = one Match call at a threshold in {0.01,0.1,0.3,0.5,0.65,0.8,0.9,0.99,1.0} on base texts (planted/edited/truncated/concatenated/scenario, with inserted notice lines), "
+          "hostile byte strings and synthetic corpora; every returned Results is checked for: threshold <= Confidence <= 1, triple was added to the corpus, "
+          "1 <= StartLine <= EndLine <= TotalInputLines <= physical lines, 0 <= StartTok <= EndTok < #words, non-increasing confidence, Copyright shape. "
+          "Non-trivial = the result contained at least one match; distinct = distinct input x threshold."),
+    floor_evals={"quick": 700, "thorough": 15000},
+    floor_nontrivial={"quick": 400, "thorough": 8000},
+    timeout={"quick": 1500, "thorough": 3 * 3600},
+)
+
+SPECS["C10"] = v2spec(
+    "TestVerifC10",
+    title="the v2 API is total on arbitrary bytes",
+    rule=("case = one hostile byte string (30 structure-aware generator kinds: empty, whitespace, NULs, every single byte value, invalid/overlong/truncated UTF-8, "
+          "surrogates, BOM, long lines, many lines, hyphen/newline storms, entities, header/notice look-alikes, byte-flipped/spliced/repeated/shuffled licenses, buffer-edge runes ...) "
+          "x threshold in {0,1e-9,0.01,0.3,0.5,0.8,0.99,1.0} x corpus in {empty, empty docs, one-word docs, small synthetic, repetitive, embedded}; "
+          "Match, MatchFrom (fragmenting readers), Normalize and AddContent (+ matching against the hostile document) are called under recover() in a child "
+          "process with a per-case watchdog. Refuted by panic / process death / double-confirmed hang. Inputs > 2.5KB are only used at thresholds >= 0.65 (cost model). "
+          "Non-trivial = all calls returned; distinct = distinct input x threshold x corpus."),
+    floor_evals={"quick": 5000, "thorough": 250000},
+    floor_nontrivial={"quick": 2000, "thorough": 100000},
+    timeout={"quick": 1800, "thorough": 5 * 3600},
+    case_timeout={"quick": 300, "thorough": 600},
+    shards={"quick": 2, "thorough": 4}, workers={"quick": 8, "thorough": 4},
 )
